@@ -302,17 +302,17 @@ def rule_record_before_hook(ck, rid="C02.R7h"):
 
 
 def run(ck):
-    rule_record_before_hook(ck)
-    rule_units(ck)
-    rule_same_value(ck)
-    rule_single_writers(ck)
-    rule_call_chain(ck)
+    ck.attempt(rule_record_before_hook)
+    ck.attempt(rule_units)
+    ck.attempt(rule_same_value)
+    ck.attempt(rule_single_writers)
+    ck.attempt(rule_call_chain)
     from .c01 import rule_loop
-    rule_loop(ck, rid="C02.R4o")
-    rule_binding(ck)
-    rule_vacancy(ck)
-    rule_recording(ck)
+    ck.attempt(rule_loop, rid="C02.R4o")
+    ck.attempt(rule_binding)
+    ck.attempt(rule_vacancy)
+    ck.attempt(rule_recording)
     from .c18 import rule_energy_totals, rule_current_power
-    rule_energy_totals(ck, rid="C02.R8")
+    ck.attempt(rule_energy_totals, rid="C02.R8")
     # "total energy delivered equals the time-integral of recorded aggregate power": aggregate power / current as defined (shared with C18)
-    rule_current_power(ck, rid_c="C02.R8c", rid_p="C02.R8p")
+    ck.attempt(rule_current_power, rid_c="C02.R8c", rid_p="C02.R8p")
